@@ -1704,6 +1704,11 @@ func (k *tsmBatchKeyIterator) EstimatedIndexSize() int {
 // Next returns true if there are any values remaining in the iterator.
 func (k *tsmBatchKeyIterator) Next() bool {
 RETRY:
+	// An error is final (the caller finds it through Err): a block that cannot
+	// be decoded would otherwise be retried forever.
+	if len(k.errs) > 0 {
+		return false
+	}
 	// Any merged blocks pending?
 	if len(k.merged) > 0 {
 		k.merged = k.merged[1:]
